@@ -754,7 +754,7 @@ func compareResult(ref *refResult, rows []*storage.Row, fields []*storage.Field,
 				lo = n
 			}
 		}
-		if ref.limit >= 0 && lo+ref.limit < hi {
+		if ref.limit >= 0 && ref.limit < hi-lo { // (not lo+limit: the sum may exceed the integer range)
 			hi = lo + ref.limit
 		}
 		return lo, hi
